@@ -106,6 +106,8 @@ func runLinCase(c linCase) outcome {
 	}
 	rec := &recorder{pendingEvict: -1}
 	var execWG sync.WaitGroup
+	var fillerEvicted sync.Map // filler key -> value reported as evicted
+	var fillerLost atomic.Pointer[string]
 	opts := &otter.Options[int, int]{InitialCapacity: c.InitCap, Logger: &vh.RecLogger{}}
 	if c.Bound == 1 {
 		opts.MaximumSize = c.Max
@@ -130,7 +132,8 @@ func runLinCase(c linCase) outcome {
 			return
 		}
 		if e.Key >= 1000 {
-			return // filler traffic is not part of the history
+			fillerEvicted.Store(e.Key, e.Value) // filler traffic is judged by its own sequential read-back, not by the history
+			return
 		}
 		t := rec.now()
 		rec.mu.Lock()
@@ -339,7 +342,22 @@ func runLinCase(c linCase) outcome {
 			defer wg.Done()
 			for wave := 0; wave < 3 && !stop.Load(); wave++ {
 				for i := 0; i < c.Filler/fillers; i++ {
-					cache.Set(base+i, i)
+					cache.Set(base+i, wave*10_000_000+i)
+				}
+				// Every filler key has a single writer (this goroutine), so its history is sequential: a key that was
+				// set and neither invalidated nor reported evicted must read back its value, whatever the table did meanwhile.
+				for i := 0; i < c.Filler/fillers; i++ {
+					want := wave*10_000_000 + i
+					got, ok := cache.GetIfPresent(base + i)
+					if ok && got == want {
+						continue
+					}
+					if ev, was := fillerEvicted.Load(base + i); was && ev.(int) == want {
+						continue
+					}
+					msg := fmt.Sprintf("key %d was set to %d by its only writer and neither invalidated nor reported evicted, yet GetIfPresent returns (%d,%v) (table growths so far: %v)", base+i, want, got, ok, func() int64 { g, _ := cache.VerifTableResizes(); return g }())
+					fillerLost.CompareAndSwap(nil, &msg)
+					break
 				}
 				for i := 0; i < c.Filler/fillers; i++ {
 					cache.Invalidate(base + i)
@@ -418,6 +436,10 @@ func runLinCase(c linCase) outcome {
 			}
 		}
 	}
+	if m := fillerLost.Load(); m != nil {
+		o.Err = errors.New(*m)
+		return o
+	}
 	res, detail := vh.CheckHistory(hist, 3*time.Second)
 	switch res {
 	case "unknown":
@@ -473,8 +495,8 @@ func TestC02_Linearizable(t *testing.T) {
 			"unbounded or MaximumSize 1..2000, executors caller-runs / goroutine / default, GOMAXPROCS 3..16, optional yields and sleeps at the verif hook points, plus filler traffic of up to 2500 keys in insert/remove waves from InitialCapacity 0/1/64 (table growth and shrink, eviction of hot keys); " +
 			"every call/return is stamped with one atomic counter, compute callbacks record what they saw, every Overflow removal is an operation Evict(k,v) spanning [atomic handler, end of the table removal]; " +
 			"oracle: per-key linearizability decided by porcupine against a register model {present,value,load token} (Compute = atomic read-modify-write whose pre-state equals what the callback saw; a loading Get = Miss + Begin in [call, loader entry] and Finish in [loader exit, return] that installs iff no write/invalidate/eviction cleared its token); " +
-			"each callback ran exactly once; non-trivial = a key history with >= 2 pairs of overlapping operations of which one writes; porcupine time-outs (3 s) are inconclusive",
-		Assumptions: []string{"schedules are sampled by the Go runtime, not enumerated", "waiters of another call's load are unconstrained (they may legitimately receive a value that never enters the cache)"},
+			"each callback ran exactly once; every filler key has a single writer, which reads its keys back after each insertion wave: a key that was set and neither invalidated nor reported evicted must return its value whatever the table did meanwhile; waiters of somebody else's load are constrained to return after that load's installing step; non-trivial = a key history with >= 2 pairs of overlapping operations of which one writes; porcupine time-outs (3 s) are inconclusive",
+		Assumptions: []string{"schedules are sampled by the Go runtime, not enumerated", "a waiter of another call's load may legitimately receive a value that never enters the cache (the load was superseded); it is only required to return after the load's installing step"},
 		Gen:         genLinCase,
 		Run:         runLinCase,
 		Enrich: func(c linCase) linCase {
